@@ -7,6 +7,9 @@
 (* T_Session binds it to recorded one-call processes) and globals' = globals.   *)
 (* Nothing of the earlier log, of the reuse mode or of globals enters Obs.      *)
 (* TLC enumerates every history up to MaxLen over Docs x Kinds x ReuseModes     *)
+(* (the legal calls of SessionDef: the loop kinds on LoopDocs, reuse "none", so  *)
+(* that histories "copy the loop trees of one document, then iterate the loops  *)
+(* of another" are among the pairs)                                             *)
 (* (with Prune: the kept patterns of SessionDef!Kept; with SampleMod > 1: of    *)
 (* the histories of full length only the seeded sample SessionDef!Sampled) and  *)
 (* emits each one of length >= EmitMin; the harness runs every emitted history  *)
@@ -43,6 +46,7 @@ LegalLog == \A i \in 1..Len(log) : LegalCall(SubSeq(log, 1, i - 1), log[i])
 GlobalsConstant == globals = G0
 GlobalsUnchanged == [][globals' = globals]_vars
 (* the pruning keeps every ordered pair of calls: nothing of length <= 2 is dropped *)
+ASSUME LoopDocsInCorpus == NDocs = Len(Corpus) => LoopDocs \subseteq Docs
 ASSUME PairsKept == \A c1 \in Calls(<<>>) : \A c2 \in Calls(<<c1>>) : Kept(<<c1, c2>>, Prune)
 
 Emit == Len(log) >= EmitMin =>
